@@ -48,6 +48,16 @@ BACKLOG = 5
 #
 RE_LITERAL_STRING_START = re.compile(rb"\{(\d+)(\+)?\}$")
 
+
+def literal_size(m: re.Match) -> int:
+    """
+    The number of octets a literal declaration announces. A count with more
+    digits than any size we would accept is simply "too big" (int() refuses
+    to convert strings of thousands of digits.)
+    """
+    digits = m.group(1)
+    return int(digits) if len(digits) <= 18 else 10**18
+
 # This dict is all of the subprocesses that we have created. One for each
 # authenticated user with at least one active connection.
 #
@@ -541,7 +551,7 @@ class IMAPClient:
                         # A non-synchronizing literal: the client sends it
                         # without waiting for us.
                         #
-                        await self._discard(int(m.group(1)))
+                        await self._discard(literal_size(m))
                         continue
                     # Either the end of the refused command, or it goes on
                     # with a synchronizing literal which the client only sends
@@ -568,7 +578,7 @@ class IMAPClient:
                 #
                 m = RE_LITERAL_STRING_START.search(msg)
                 if m:
-                    literal_str_length = int(m.group(1))
+                    literal_str_length = literal_size(m)
 
                     # Reject literals that exceed the maximum input
                     # size to prevent memory exhaustion.
